@@ -590,7 +590,7 @@ func main() {
 	// ------------------------------------------------------------------ emit
 	var b strings.Builder
 	b.WriteString("-- GENERATED by tools/facts_c18 from the working tree of the repository. DO NOT EDIT.\n")
-	b.WriteString("namespace Sema.Gen.FactsC18\n\n")
+	b.WriteString("set_option linter.unusedVariables false\nnamespace Sema.Gen.FactsC18\n\n")
 	b.WriteString("/-- decision skeleton: (function, condition / switch tag / case list) in source order -/\n")
 	b.WriteString("def skeleton : List (String × String) := [\n")
 	for i, s := range skeleton {
